@@ -54,8 +54,8 @@ def check_pairing(fx, rep):
     for name, (f, n) in fns.items():
         fm = [m for m in A.nodes(n['body']) if m.get('k') == 'macro' and m.get('name') in ('format', 'write', 'writeln') and 'rename' in (m.get('fmt') or '')]
         cmp_ = [x for x in A.nodes(n['body']) if x.get('k') == 'binary' and x.get('op') in ('!=', '==')]
-        if fm and cmp_ and len(n.get('params') or n.get('sig') or '') >= 0 and name not in ('generate_field', 'generate_error_field') and not name.startswith('generate_'):
-            helpers.add(name)
+        if fm and not name.startswith('generate_'):
+            helpers.add(name)      # a helper that formats the rename attribute (with or without the comparison inside)
     n_wire = 0
     for body in crate.bodies:
         if body.in_test or 'codegen' not in body.path:
